@@ -1246,9 +1246,12 @@ class Quantized(Sampler):
     ):
         values = self.sampler.sample(domain, spec, size, random_state)
         quantized = np.round(np.divide(values, self.q)) * self.q
+        # Rounding to a multiple of ``q`` must not leave the domain (round-off
+        # error, or ``q`` does not divide the bounds)
+        quantized = np.clip(quantized, domain.lower, domain.upper)
         if not isinstance(quantized, np.ndarray):
             return domain.cast(quantized)
-        return list(quantized)
+        return [domain.cast(x) for x in quantized]
 
     def __eq__(self, other) -> bool:
         return (
